@@ -21,17 +21,19 @@ ELEM = "wntr/network/elements.py"
 BASE = "wntr/network/base.py"
 
 EXPLANATION = (
-    "Formula extraction of the two junction mass-balance builders (linear form: demand, sum of INLET flows, sum of OUTLET flows, guarded leak term, "
-    "isolated guard, index set), of the tank/reservoir demand recomputation in store_results_in_network, and of TimeSeries.at / Pattern.at; "
-    "get_links_for_node and Demands.at are evaluated on a fixture (a small network with parallel, reversed and self-looping links and non-link users "
-    "of a node; a demand list with symbolic entry values) so that what they return decides, not how they are written; the product of the three sign "
-    "conventions (balance row x adjacency x link-row orientation) must be +1; every demand_timeseries_list.at call in wntr.sim passes sim_time + "
-    "pattern_start and the global demand multiplier, and the refresh stores that value under the junction's own name; in run_sim every path of an "
-    "iteration from the loop head to the solve refreshes the demand and source-head parameters, and every call of the refresh runs through an element "
-    "loop that assigns unconditionally; DD copies the requested demand, PDD the demand variable; results are appended from node.demand / leak_demand / "
-    "link.flow. Extraction is by symbolic execution with conditional expressions split like if/else, bound variables alpha-normalised and path tests "
-    "decomposed into atoms, so statement shape and local names do not matter. Decides the equations and bookkeeping for every topology; not the "
-    "numerical tolerance attained.")
+    "T2 = symbolic path enumeration (conditional expressions split like if/else, path tests decomposed into atoms) to "
+    "sympy forms and store / call events; T3 = finite evaluation on one fixture by the local evaluator Conc, bounded to it; T1 = CFG / AST. R-C01-1 (T2): "
+    "both junction mass-balance builders store demand - sum(INLET flows) + sum(OUTLET flows) [+ leak iff leak_status] per non-isolated junction over the "
+    "junction index set. R-C01-2 (T3, one fixture network with parallel, reversed, self-looping links): get_links_for_node filters "
+    "INLET / OUTLET / ALL correctly. R-C01-3 (T2 x T3): the product of the sign conventions balance row x adjacency (from the fixture) x link-row "
+    "orientation (first qualifying path of 8 headloss builders) is +1. R-C01-4 (T2): tank / reservoir demand recomputation, leak demand and flow copies in "
+    "store_results_in_network. R-C01-5a (T2; Demands.at T3 on a six-entry fixture): TimeSeries.at / Pattern.at / Demands.at. R-C01-5b (call sites by AST, "
+    "arguments by T2): every demand_timeseries_list.at in wntr.sim passes sim_time + pattern_start and the global multiplier. R-C01-5c (T1 CFG must-pass): "
+    "every path from the loop head to the solve refreshes demand and source-head parameters (create_hydraulic_model: presence of the call only). R-C01-5d "
+    "(T2; getters by AST pattern, appends by regex): DD copies the requested demand, PDD the demand variable; results come from node.demand / leak_demand / "
+    "link.flow. R-C01-5e (T1 CFG): every pass of each element loop of the refresh assigns. R-C01-6 (T2 + AST shape match): isolation-graph entries are 0 "
+    "exactly for Closed links; parallel links are collected with flag ALL. Symbol texts are compared, so the receiver names wn / m, m.flow[..] / "
+    "m.leak_rate[..] and loop texts like wn.tanks() are fixed. Decides the equations and bookkeeping, not the numerical tolerance attained.")
 RULE_TEXT = "one instance = one extracted formula / adjacency filter / call site / path rule; distinct by construct text"
 ASSUMPTIONS = ["the compiled evaluator evaluates the registered expression (C15); Newton converges (not decided)",
                "flows reported for links are the model's flow variables (store_results_in_network copies m.flow[name].value, checked)"]
